@@ -113,7 +113,8 @@ def models_for(pid, tier):
         'C16': [('MC_Stmts', 'MC_Stmts_deep.cfg' if deep else 'MC_Stmts.cfg', 'pass'), ('MC_Stmts', 'MCdev_Stmts_flag.cfg', 'fail')],
         'C17': [('MC_Stmts', 'MC_Stmts_deep.cfg' if deep else 'MC_Stmts.cfg', 'pass'), ('MC_Stmts', 'MCdev_Stmts_noclear.cfg', 'fail')],
         'C18': [('MC_Tls', 'MC_Tls.cfg', 'pass'), ('MC_Tls', 'MCdev_Tls_keep.cfg', 'fail'), ('MC_Tls', 'MCdev_Tls_nothing.cfg', 'fail'),
-                ('MC_Tls', 'MCdev_Tls_fromstart.cfg', 'fail')],
+                ('MC_Tls', 'MCdev_Tls_fromstart.cfg', 'fail'), ('MC_TlsWrite', 'MC_TlsWrite.cfg', 'pass'),
+                ('MC_TlsWrite', 'MCdev_TlsWrite_queueonly.cfg', 'fail')],
         'C19': [('MC_Flow', 'MC_Flow_faults.cfg', 'pass'), ('MC_Reader', 'MC_Reader_trunc.cfg', 'pass'), ('MC_Flow', 'MCdev_Flow_swallow.cfg', 'fail'),
                 ('MC_Reader', 'MCdev_Reader_eof.cfg', 'fail')],
         'C20': [('MC_Robust', 'MC_Robust_deep.cfg' if deep else 'MC_Robust.cfg', 'pass')],
